@@ -537,6 +537,11 @@ def identical(ctx: Ctx, a, b):
             if y is x.default:
                 return z3.Not(x.given)
             return False
+    for x, y in ((a, b), (b, a)):
+        if type(x).__name__ == "SymIte":
+            # a conditionally assigned attribute (interp.try_merge_if): decided branch by branch
+            # (without this case `merged is None` was the constant False, whatever the branches)
+            return z3.If(x.c, _z(identical(ctx, x.a, y)), _z(identical(ctx, x.b, y)))
     if type(a).__name__ == "SymMsg" or type(b).__name__ == "SymMsg":
         return False
     if isinstance(a, SymOpt) or isinstance(b, SymOpt):
